@@ -1,11 +1,11 @@
 #!/bin/bash
 # tools/verify_seed.sh <name> <dir with patch.diff, demo_*.rs, notes.md> <property> [checks...]
 # Confirms in a scratch worktree of /repo that the change (a) keeps the existing suite passing, (b) makes the
-# demonstration fail, (c) the demonstration passes without it; then applies it to /repo, runs the named checks
-# (default: the property's), undoes it, and files the seed under /verif/seeded/<name>/ with meta.json.
+# demonstration fail, (c) the demonstration passes without it; then runs the named checks against the change
+# (default: the property's) on scratch copies, and files the seed under /verif/seeded/<name>/ with meta.json.
 set -u
 NAME=$1; SRC=$2; PROP=$3; shift 3; CHECKS="${*:-$PROP}"
-W=/tmp/vseed_$NAME
+W=/tmp/vseed_repo
 rm -rf $W; git -C /repo worktree add -q $W HEAD || exit 2
 export CARGO_TARGET_DIR=$W/target CARGO_NET_OFFLINE=true
 DEMO=$(ls $SRC/demo_*.rs | head -1); DN=$(basename $DEMO .rs)
@@ -18,20 +18,22 @@ npass=$(grep -E "^test result: ok" $W/suite.log | head -1 | sed -E 's/.* ([0-9]+
 with=pass; cargo test --offline ${DEMO_FLAGS:-} --test $DN >$W/demo_with.log 2>&1 || with=FAIL
 cd /verif
 echo "seed $NAME: existing suite with change=$suite ($npass unit tests), demo with change=$with, demo without change=$without"
-git -C /repo worktree remove --force $W
-[ "$suite" = pass ] && [ "$with" = FAIL ] && [ "$without" = pass ] || { echo "seed $NAME REJECTED (does not meet the three conditions)"; exit 1; }
-# run the checks against /repo with the change applied (evidence files describe the UNCHANGED tree: keep them)
+[ "$suite" = pass ] && [ "$with" = FAIL ] && [ "$without" = pass ] || { git -C /repo worktree remove --force $W; echo "seed $NAME REJECTED (does not meet the three conditions)"; exit 1; }
+# run the checks against the change: the scratch worktree (change applied, demonstration removed) stands in for /repo,
+# and a scratch copy of /verif whose harness depends on that worktree stands in for /verif - /repo itself and the
+# evidence files, which describe the UNCHANGED tree, are never touched
 unset CARGO_TARGET_DIR
-rm -rf /verif/mc/target/evidence.keep; cp -r /verif/evidence /verif/mc/target/evidence.keep
-if [ -n "$(git -C /repo status --porcelain --untracked-files=no)" ]; then echo "refusing: /repo dirty"; exit 2; fi
-git -C /repo apply $SRC/patch.diff
+rm -f $W/tests/$DN.rs
+V=/tmp/vseed_verif; rm -rf $V; mkdir -p $V /tmp/vseed_target
+rsync -a --exclude .git --exclude 'mc/target*' --exclude replays /verif/ $V/
+sed -i "s#path = \"/repo\"#path = \"$W\"#" $V/mc/Cargo.toml
+ln -s /tmp/vseed_target $V/mc/target
 res=""; det=""
 for id in $CHECKS; do
-  out=$(./check $id --tier quick 2>/dev/null); rc=$?
+  out=$($V/check $id --tier quick 2>/dev/null); rc=$?
   if [ $rc -eq 1 ] && echo "$out" | grep -q "^VIOLATION property=$id "; then res="$res $id=DETECTED"; det="$det \"$id\","; else res="$res $id=MISSED(rc=$rc)"; fi
 done
-git -C /repo checkout -- .
-rm -rf /verif/evidence; cp -r /verif/mc/target/evidence.keep /verif/evidence
+git -C /repo worktree remove --force $W; rm -rf $V
 echo "seed $NAME: $res"
 mkdir -p seeded/$NAME && cp $SRC/patch.diff seeded/$NAME/patch.diff && cp $DEMO seeded/$NAME/ && cp $SRC/notes.md seeded/$NAME/notes.md 2>/dev/null
 python3 - "$NAME" "$PROP" "$res" "$suite" "$with" "$without" <<'PY'
